@@ -13,7 +13,7 @@ ASCII_LABELS = ["a", "b", "www", "example", "com", "ORG", "MiXed", "x-y", "_srv"
 ODD_LABELS = ["xn--BCHER-kva", "XN--bcher-kva", "xn--a", "xn--", "xn--abc-", "a" * 64, "", "xn--zckzah", "xn--9999", "xn--ab-9g2a"]
 UNI_LABELS = ["bücher", "münchen", "例え", "ñ", "ß", "BÜCHER", "a。b", "é" * 30, "é" * 70, "‍", "ǆ", "١"]
 RAW_LABELS = [b"a", b"www", b"example", b"com", b"EXAMPLE", b"xn--bcher-kva", b"xn--BCHER-kva", b"xn--a", b"a.b", b".", b"\xc3\xa9",
-              b"\xff", b"xn--\xff", b"x" * 63, b"xn--mnchen-3ya", b"XN--A", b"a.xn--bcher-kva", b"\xc0\x0c", b"xn--abc-", b"xn--ab-9g2a"]
+              b"\xff", b"xn--\xff", b"x" * 63, b"xn--mnchen-3ya", b"XN--A", b"a.xn--bcher-kva", b"\xc0\x0c", b"xn--abc-", b"xn--ab-9g2a", b"xn--BcHEr-kVA"]
 
 
 class Check(PropertyCheck):
@@ -53,6 +53,20 @@ class Check(PropertyCheck):
     trusted_base = ["CPython 3.12.1 `idna`/`punycode` codecs: a parameter of the model, instantiated per case by a table recorded from the real codec",
                     "struct.pack/unpack_from big-endian integer layouts H, I, B"]
     parallel = False
+    case_timeout = 3               # decoding a <= 64 KiB message takes milliseconds
+
+    def on_timeout(self, case):
+        # "Decoding arbitrary bytes either produces a message or fails with a parse error, always terminating,
+        #  including on compression-pointer loops"
+        self._timeouts = getattr(self, "_timeouts", 0) + 1
+        what = {"bytes": "DNSMessage.unpack", "name": "unpack_from_with_compression", "expand": "expand_record_data",
+                "plain": "expand_record_data", "msg": "packed/unpack of a constructed message"}[case["op"]]
+        return [f"termination: {what} did not return within {self.case_timeout}s (pointer loop?)"]
+
+    def shrink_candidates(self, case):
+        # a hang is reported as it is: shrinking it would cost case_timeout per candidate
+        if getattr(self, "_timeouts", 0): return iter(())
+        return super().shrink_candidates(case)
 
     # ------------------------------------------------------------------ translate
     def translate(self):
@@ -189,6 +203,36 @@ class Check(PropertyCheck):
             for o in offs:
                 yield {"op": "name", "buf_hex": hx(buf), "off": o}
 
+    def _rdata_loops(self, ty, shape, lead=None):
+        """a message whose record of type `ty` has, where its layout expects a name, a compression pointer into a cycle
+        made of pointers only (shape 0: self-pointer, 1: two pointers at each other, 2: label + pointer to a
+        self-pointer in the trailing record, 3: pointer to a 3-cycle in another record, 4: label + pointer back to the label)"""
+        lay = D.RFC_LAYOUT.get(ty, "")
+        pre = b""
+        for f in lay:
+            if f == "N": break
+            pre += (b"\x01x" if f == "S" else bytes(D._FIXED[f]))
+        if lead is not None: pre = lead
+        hdr = struct.pack("!HHHHHH", 0x1234, 0x8180, 1, 1, 0, 1)
+        q = b"\x06google\x03com\x00" + struct.pack("!HH", ty if ty < 65536 else 1, 1)
+        at = len(hdr) + len(q) + 2 + 10 + len(pre)          # offset of the name field inside the record data
+        ptr = lambda o: struct.pack("!H", 0xC000 | o)
+        def finish(rd, extra=b""):
+            rr = b"\xc0\x0c" + struct.pack("!HHIH", ty, 1, 300, len(rd)) + rd
+            ar = b"\x00" + struct.pack("!HHIH", 10, 1, 0, len(extra)) + extra      # NULL record holding the cycle
+            return hdr + q + rr + ar
+        if shape == 0: return finish(pre + ptr(at))
+        if shape == 1: return finish(pre + ptr(at + 2) + ptr(at) + bytes(20))
+        if shape == 2:
+            rd = pre + b"\x03www" + ptr(0)
+            far = len(hdr) + len(q) + 12 + len(rd) + 11
+            return finish(pre + b"\x03www" + ptr(far), ptr(far))
+        if shape == 3:
+            rd = pre + ptr(0)
+            far = len(hdr) + len(q) + 12 + len(rd) + 11
+            return finish(pre + ptr(far), ptr(far + 2) + ptr(far + 4) + ptr(far))
+        return finish(pre + b"\x03www" + ptr(at))
+
     def _chain(self, n, end=b"\x00"):
         """question name = chain of n pointers, stored in the data of a NULL record"""
         start = 12 + 2 + 4 + 1 + 10
@@ -201,6 +245,12 @@ class Check(PropertyCheck):
         for n in (0, 1, 5, 125, 126, 127, 128, 129, 200):
             yield {"op": "bytes", "buf_hex": hx(self._chain(n))}
             yield {"op": "bytes", "buf_hex": hx(self._chain(n, b"\x03abc\x00"))}
+        for ty in sorted(D.RFC_LAYOUT) + [16, 1]:        # pointer-only cycles where the record's layout has a name
+            for shape in range(5):
+                yield {"op": "bytes", "buf_hex": hx(self._rdata_loops(ty, shape))}
+        for shape in range(5):                            # ... and in the malformed-layout fallback scan
+            yield {"op": "bytes", "buf_hex": hx(self._rdata_loops(33, shape, lead=b"\x00"))}
+            yield {"op": "bytes", "buf_hex": hx(self._rdata_loops(2, shape, lead=b"\x40"))}
         if tier == "thorough":
             for c in self._graph_cases(3): yield c
         while True:
@@ -220,6 +270,12 @@ class Check(PropertyCheck):
                 elif len(b) > 13:
                     i = rng.randint(12, len(b) - 2); b[i] = 0xC0; b[i + 1] = rng.randint(0, min(255, len(b) + 2))
                 yield {"op": "bytes", "buf_hex": hx(bytes(b))}
+            elif r < 78:     # pointer cycles inside record data (random type, shape, leading bytes)
+                ty = rng.pick(sorted(D.RFC_LAYOUT) + TYPES)
+                lead = None if rng.chance(0.6) else bytes(rng.pick([0, 1, 0x40, 0xC0, rng.getrandbits(8)]) for _ in range(rng.randint(0, 7)))
+                b = self._rdata_loops(ty, rng.randint(0, 4), lead)
+                if rng.chance(0.3): yield {"op": "expand", "buf_hex": hx(b), "off": 12 + 16 + 12, "len": rng.randint(2, max(2, len(b) - 40 - 11)), "ty": ty}
+                else: yield {"op": "bytes", "buf_hex": hx(b)}
             elif r < 83:     # pointer graphs with arbitrary targets
                 k = rng.randint(1, 4)
                 choice = [(rng.randint(0, 1), rng.pick([None] + list(range(k)) + [100 + rng.randint(0, 60)])) for _ in range(k)]
@@ -350,7 +406,7 @@ class Check(PropertyCheck):
 
     def known(self, case, obs, failure):
         """F-C25a: a record of a name-bearing type whose data did not match the layout of its type (heuristic fallback)"""
-        if case["op"] == "bytes" and failure.startswith("reencode:") and obs["r"].startswith("ok "):
+        if case["op"] == "bytes" and failure.startswith("reencode:") and str(obs.get("r", "")).startswith("ok "):
             if any(not D.rdata_plain(self.layout, t, d) for t, d in self._records(obs["r"])):
                 return "F-C25a"
         return None
